@@ -936,7 +936,14 @@ func runAppScan(c e2eCase, args []string, targets []uint32, stdin []byte) string
 			}
 		}
 	}
-	args = append(args, "-w", "7", "-t", "1s")
+	hasW := false
+	for _, a := range args {
+		hasW = hasW || a == "-w"
+	}
+	if !hasW {
+		args = append(args, "-w", "7")
+	}
+	args = append(args, "-t", "1s")
 	res := runSXOn(c.oneCPU, stdin, 90*time.Second, args...)
 	time.Sleep(30 * time.Millisecond)
 	if res.timedOut {
